@@ -25,17 +25,36 @@ GrpcBad == {[kind |-> "grpcbad", what |-> w] : w \in {"unknown_method", "bad_pay
 GrpcFail == {[kind |-> "grpcfail", what |-> w] : w \in {"refused", "timeout"}}
 Invalid == {[kind |-> "invalid"]}
 
-StepOuts == {Out("status", 200), Out("status", 404), Out("status", 500), Out("reset", 0), Out("truncated", 200)}
+\* ---- scenario steps: a curated set of step variants, scenarios = all sequences of them up to a length ----
+HStep(pre, out, post, sleep) == [pre |-> pre, out |-> out, post |-> post, sleep |-> sleep]
+Answers == {Out("status", 200), Out("status", 404), Out("status", 500)}
+HttpStepVariants ==
+       {HStep("none", o, "none", FALSE) : o \in Answers \cup {Out("reset", 0), Out("truncated", 200)}}   \* exchange outcomes
+  \cup {HStep("none", o, p, FALSE) : o \in Answers, p \in {"pass", "assertfail", "extractfail"}}       \* postprocessor outcomes x response kinds
+  \cup {HStep(p, Out("status", 200), "none", FALSE) : p \in {"ok", "fail", "tmplfail"}}                \* before the request
+  \cup {HStep("none", Out("status", 200), "pass", TRUE)}                                               \* a step followed by a sleep
 \* TLC cannot enumerate a set with a dependent bound directly: one union per length
-HttpScnCases(maxLen) == UNION {{[kind |-> "httpscn", name |-> "scn", steps |-> [k \in 1..n |-> [name |-> Segs[k], out |-> f[k]]]] :
-                                   f \in [1..n -> StepOuts]} : n \in 1..maxLen}
-GrpcScnCases(maxLen) == UNION {{[kind |-> "grpcscn", name |-> "gscn", steps |-> [k \in 1..n |-> [tag |-> Segs[k], status |-> f[k]]]] :
-                                   f \in [1..n -> {0, 5, 13}]} : n \in 1..maxLen}
+HttpScnCases(maxLen) ==
+    UNION {{[kind |-> "httpscn", name |-> "scn",
+             steps |-> [k \in 1..n |-> [name |-> Segs[k], pre |-> f[k].pre, out |-> f[k].out, post |-> f[k].post, sleep |-> f[k].sleep]]] :
+               f \in [1..n -> HttpStepVariants]} : n \in 1..maxLen}
+
+\* want: the code the step's status assert is given (TLC renders it: GrpcCode for a passing assert, 299 never matches)
+GStep(pre, st, post) == [pre |-> pre, status |-> st, post |-> post,
+                         want |-> IF post = "pass" THEN GrpcCode(st) ELSE IF post = "assertfail" THEN 299 ELSE 0]
+GrpcStepVariants ==
+       {GStep("none", st, p) : st \in {0, 5, 13}, p \in {"none", "pass", "assertfail", "extractfail"}}
+  \cup {GStep(p, 0, "none") : p \in {"ok", "fail", "tmplfail"}}
+GrpcScnCases(maxLen) ==
+    UNION {{[kind |-> "grpcscn", name |-> "gscn",
+             steps |-> [k \in 1..n |-> [tag |-> Segs[k], pre |-> f[k].pre, status |-> f[k].status, post |-> f[k].post, want |-> f[k].want]]] :
+               f \in [1..n -> GrpcStepVariants]} : n \in 1..maxLen}
 
 SpaceQuick == HttpCases(200, 599) \cup TagCases({"uri", "json"}, 1..3) \cup GrpcCases \cup GrpcBad \cup GrpcFail \cup Invalid
               \cup HttpScnCases(2) \cup GrpcScnCases(2)
 SpaceBig   == HttpCases(200, 599) \cup TagCases({"uri", "json", "raw", "uripost"}, 1..5) \cup GrpcCases \cup GrpcBad \cup GrpcFail \cup Invalid
               \cup HttpScnCases(3) \cup GrpcScnCases(3)
+\* scenario cases alone (3 steps: 5 831 + 3 615 cases) are the bulk of the thorough space
 
 \* the catalogue of the state machine: one or two of each kind that Expected() covers
 Small == {[kind |-> "http", out |-> Out("status", 200)], [kind |-> "http", out |-> Out("reset", 0)],
@@ -43,8 +62,19 @@ Small == {[kind |-> "http", out |-> Out("status", 200)], [kind |-> "http", out |
           [kind |-> "grpc", status |-> 13],
           [kind |-> "tag", fmt |-> "uri", tag |-> "", at |-> [enabled |-> TRUE, depth |-> 1, notagonly |-> TRUE],
            elems |-> <<"s1", "s2">>, query |-> "", uri |-> "/s1/s2"],
-          [kind |-> "httpscn", name |-> "scn", steps |-> <<[name |-> "s1", out |-> Out("status", 404)],
-                                                           [name |-> "s2", out |-> Out("reset", 0)],
-                                                           [name |-> "s3", out |-> Out("status", 200)]>>],
-          [kind |-> "grpcscn", name |-> "gscn", steps |-> <<[tag |-> "s1", status |-> 5], [tag |-> "s2", status |-> 0]>>]}
+          [kind |-> "httpscn", name |-> "scn",
+           steps |-> <<[name |-> "s1", pre |-> "none", out |-> Out("status", 404), post |-> "pass", sleep |-> FALSE],
+                       [name |-> "s2", pre |-> "none", out |-> Out("reset", 0), post |-> "none", sleep |-> FALSE],
+                       [name |-> "s3", pre |-> "none", out |-> Out("status", 200), post |-> "none", sleep |-> FALSE]>>],
+          [kind |-> "httpscn", name |-> "scn",
+           steps |-> <<[name |-> "s1", pre |-> "ok", out |-> Out("status", 200), post |-> "none", sleep |-> TRUE],
+                       [name |-> "s2", pre |-> "none", out |-> Out("status", 500), post |-> "assertfail", sleep |-> FALSE],
+                       [name |-> "s3", pre |-> "none", out |-> Out("status", 200), post |-> "none", sleep |-> FALSE]>>],
+          [kind |-> "httpscn", name |-> "scn",
+           steps |-> <<[name |-> "s1", pre |-> "tmplfail", out |-> Out("status", 200), post |-> "none", sleep |-> FALSE],
+                       [name |-> "s2", pre |-> "none", out |-> Out("status", 200), post |-> "none", sleep |-> FALSE]>>],
+          [kind |-> "grpcscn", name |-> "gscn",
+           steps |-> <<[tag |-> "s1", pre |-> "none", status |-> 5, post |-> "pass", want |-> 404],
+                       [tag |-> "s2", pre |-> "none", status |-> 0, post |-> "extractfail", want |-> 0],
+                       [tag |-> "s3", pre |-> "none", status |-> 0, post |-> "none", want |-> 0]>>]}
 =============================================================================
